@@ -136,6 +136,7 @@ pub proof fn lemma_arr16_exists(s: Seq<u8>)
 //@spec
     ensures r == xor_sock(*addr, transaction_id@),
 //@before "let xor_port"
+    proof { lemma_bitops_commute(); }
     proof { assert((0x2112_A442u32 >> 16u32) as u16 == 0x2112u16) by (bit_vector); }
 //@loop 1
     invariant vx_n0 == 4, vx_k0 <= 4,
